@@ -275,9 +275,83 @@ def sim_acts(ctx, cfgname, num, depth):
     return behs
 
 
+_CONSUMER = {'L1Req': ('rqi', {'FwdOut'}), 'ExtReq': ('dto', {'FwdIn'}), 'NetDeliverReq': ('dto', {'FwdIn'}),
+             'L2Rsp': ('dti', {'RspOut'}), 'NetDeliverRsp': ('rqo', {'RspIn'}), 'ExtAnswer': ('rqo', {'RspIn'}),
+             'Ctrl': ('ctl', {'TakeDrain', 'Restart'})}
+
+
+def just_in_time(steps):
+    """The model may leave a delivered message in a queue for a long time; the real engine consumes it at its next
+    tick.  Delivering each message just before the engine step that consumes it (the k-th message put into a queue
+    is consumed by the k-th consuming step of that engine: the queues are FIFO) is another behaviour of the model
+    (a delivery commutes with every step but its consumer and the other deliveries into the same queue, whose
+    order is kept) and one the eager engine can follow."""
+    nroot = 0
+    steps = [dict(st) for st in steps]
+    for st in steps:                      # roots keep the model's numbering whatever the order of issue becomes
+        if st.get('a') in ('L1Req', 'ExtReq'):
+            nroot += 1
+            st['root'] = nroot
+    consumer_of = {}
+    seen = {}
+    consumers = {}
+    for j, st in enumerate(steps):
+        if st.get('a') == 'Await':
+            for q, (port, evs) in _CONSUMER.items():
+                if st.get('e') in evs:
+                    consumers.setdefault((st['c'], port), [])
+                    if j not in consumers[(st['c'], port)]:
+                        consumers[(st['c'], port)].append(j)
+    for i, st in enumerate(steps):
+        if st.get('a') in _CONSUMER and 'c' in st:
+            key = (st['c'], _CONSUMER[st['a']][0])
+            k = seen.get(key, 0)
+            seen[key] = k + 1
+            lst = consumers.get(key, [])
+            if k < len(lst) and lst[k] > i:
+                consumer_of[i] = lst[k]
+    before = {}
+    for i, j in consumer_of.items():
+        before.setdefault(j, []).append(i)
+    out = []
+    for j, st in enumerate(steps):
+        if j in consumer_of:
+            continue
+        for i in sorted(before.get(j, [])):
+            out.append(steps[i])
+        out.append(st)
+    return out
+
+
+_ERRSTATE = re.compile(r'^State \d+: .*$', re.M)
+
+
+def stale_ack_scenario(ctx):
+    """Named deviation StaleDrainAck (the acknowledgement prepared when the control port had no room is sent later
+    without looking at the tables again): TLC must find the violation of DrainAckOnlyWhenEmpty in the model, and
+    the counterexample becomes a replay scenario for the real engine (one-entry ports)."""
+    import tlaval
+    res = ctx.tlc(['rdma'], 'RDMAScen.tla', 'RDMAScen_stale.cfg', workers=1, timeout=600, kind='deviation')
+    if 'DrainAckOnlyWhenEmpty' not in res.violated:
+        raise vlib.Infra('the StaleDrainAck deviation does not violate DrainAckOnlyWhenEmpty in the model: the model cannot '
+                         'stall an acknowledgement while outside requests arrive\n' + res.out[-1500:])
+    acts = []
+    for body in _ERRSTATE.split(res.out)[1:]:
+        m = _ACT.search(body.split('\n\n')[0] + '\n')
+        if not m:
+            raise vlib.Infra('cannot find act in the counterexample of RDMAScen_stale')
+        a = tlaval.parse_value(m.group(1))
+        if a.get('a') != 'Init':
+            acts.append(a)
+    ctx.cov['deviation_counterexamples'] = {'StaleDrainAck': {'violates': 'DrainAckOnlyWhenEmpty', 'steps': len(acts)}}
+    return {'cfg': {'comps': [1, 2], 'ngpu': 3, 'span': 4, 'il': 2, 'nb': 2, 'buf': 1, 'widths': [1, 1, 1, 1]},
+            'steps': just_in_time(acts)}
+
+
 def scenarios(ctx, cfgname, comps, num, depth):
     out = []
     for i, steps in enumerate(sim_acts(ctx, cfgname, num, depth)):
+        steps = just_in_time(steps)
         cfg = {'comps': comps, 'ngpu': 3, 'span': 4, 'il': 2, 'nb': 2, 'buf': 1 + i % 3,
                'widths': [1 + i % 3, 1 + (i // 3) % 2, 1 + (i // 2) % 3, 1 + i % 2]}
         out.append({'cfg': cfg, 'steps': steps})
@@ -330,7 +404,7 @@ def model_check(ctx, thorough):
     r = ctx.tlc_expect_ok(['rdma'], 'MC_RDMA.tla', 'MC_RDMA.cfg', coverage=True, timeout=900,
                           workers=None if thorough else 6)
     ctx.log('MC_RDMA (2 engines + scripted peer, 2 requests, 1 drain): %d distinct states, depth %d' % (r.distinct, r.depth))
-    ctx.cov['coverage_zero_actions'] = r.coverage_zero()
+    ctx.cov['coverage_zero_actions'] = [a for a in r.coverage_zero() if not a.endswith('!NDrainPrepare')]  # deviation only
     if ctx.cov['coverage_zero_actions']:
         raise vlib.Infra('vacuous model: actions never taken: %s' % ctx.cov['coverage_zero_actions'])
     r = ctx.tlc_expect_ok(['rdma'], 'MC_RDMA.tla', 'MC_RDMA_live1.cfg', timeout=1200, workers=None if thorough else 4)
@@ -364,8 +438,14 @@ def run_rdma(ctx):
 
 def real_code(ctx, drv, thorough, pool):
     # 2. spec -> code: TLC behaviours as environment scenarios on real engines
-    n2, n1 = (300, 120) if thorough else (45, 20)
-    scen = scenarios(ctx, 'RDMAScen.cfg', [1, 2], n2, 90) + scenarios(ctx, 'RDMAScen1.cfg', [2], n1, 70)
+    n2, n1, nc = (300, 120, 120) if thorough else (35, 15, 15)
+    scen = [stale_ack_scenario(ctx)]
+    ctx.sample({'replay_of_model_counterexample_StaleDrainAck': scen[0]['steps']})
+    scen += scenarios(ctx, 'RDMAScen.cfg', [1, 2], n2, 90) + scenarios(ctx, 'RDMAScen1.cfg', [2], n1, 70)
+    ctl = scenarios(ctx, 'RDMAScenCtl.cfg', [1, 2], nc, 90)       # one-entry ports, up to 3 drain rounds
+    for sc in ctl:
+        sc['cfg']['buf'] = 1
+    scen += ctl
     sfile = os.path.join(ctx.scratch, 'scen.json')
     json.dump(scen, open(sfile, 'w'))
     t1 = os.path.join(ctx.scratch, 'trace_scen.ndjson')
@@ -376,7 +456,7 @@ def real_code(ctx, drv, thorough, pool):
         # the unchanged engine follows the model's environment steps; a large miss rate means the script
         # no longer steers the component (on a broken engine the trace validation below decides first)
         ctx.notes.append('scenario steps skipped: %d of %d' % (skipped, done + skipped))
-    ctx.sample({'scenario_from_TLC_behaviour': scen[0]['steps'][:14]})
+    ctx.sample({'scenario_from_TLC_behaviour': scen[1]['steps'][:14]})
 
     # 3. code -> spec: seeded adversarial environments, 1..4 engines, far beyond the model's bounds
     nrand = 500 if thorough else 70
@@ -469,6 +549,12 @@ def real_code(ctx, drv, thorough, pool):
 def run(ctx, selftest=False):
     run_rdma(ctx)
     if run_system is not None:
+        if ctx.violations:
+            # with broken RDMA engines or routing tables whole-system timing runs spin for tens of minutes and
+            # gigabytes; the verdict (exit 1) is already decided
+            ctx.log('system part skipped: the RDMA part already reported a violation')
+            ctx.notes.append('system part skipped after a violation in the RDMA part')
+            return
         run_system(ctx)
 
 
